@@ -626,6 +626,13 @@ class PresentationContextItemRQ(PDUItem):
             elif isinstance(syntax, AbstractSyntaxSubItem):
                 context.abstract_syntax = syntax.abstract_syntax_name
 
+        # PS3.8 Table 9-13: one or more Transfer Syntax Sub-items are required
+        if not context.transfer_syntax:
+            raise ValueError(
+                "A Presentation Context (RQ) Item requires at least one "
+                "Transfer Syntax Sub-item"
+            )
+
         return context
 
     @property
